@@ -91,6 +91,19 @@ def relations(ctx, s, lang, parsers, formats=None, parts_present=None, kind="cor
         elif parts_present is not None and not {"D", "M", "Y"} <= set(parts_present):
             ctx.count("strict_none_by_construction")
             ctx.nontrivial(lang, s, "strict-none", bi, repr(formats), pair, pref)
+        if not isinstance(strict, Exception) and not isinstance(loose, Exception):
+            # STRICT_PARSING together with an explicit (smaller) REQUIRE_PARTS: strictness still requires all three parts
+            for parts in (["year"], []):
+                both = P(s, lang, b, parsers, formats, STRICT_PARSING=True, REQUIRE_PARTS=parts, **extra)
+                ctx.ran()
+                if isinstance(both, Exception):
+                    continue
+                if both != strict:
+                    ctx.violation(dict(case, require=parts), {"strict+require": both, "strict": strict},
+                                  "the STRICT_PARSING result", "strict-loosened-by-require-parts",
+                                  {"kind": kind, "config": "STRICT_PARSING+REQUIRE_PARTS"})
+                else:
+                    ctx.count("strict_with_require_parts_agrees")
         for parts in PART_SUBSETS:
             rp = P(s, lang, b, parsers, formats, REQUIRE_PARTS=parts, **extra)
             ctx.ran()
@@ -234,6 +247,13 @@ def run_generated(ctx, desc):
                         and tuple(sorted(parts, key="MWYT".find)) in SAFE_SUBSETS and "D" not in parts
                     n_g = ctx.counters.get("generated:strings", 0)
                     pp = list(parts) if safe else None
+                    if "D" in parts and ("M" in parts or "Y" in parts) and mw == mons[0]:
+                        # placeholder spellings of the day ('00', '0'): whatever they are read as, the relations must hold
+                        for z in ("00", "0"):
+                            sz = " ".join(z if t == "17" else t for t in toks)
+                            relations(ctx, sz, lang, ABS, parts_present=None, kind="generated-zero",
+                                      pair=1 + n_g % (len(BASE_PAIRS) - 1))
+                            ctx.count("generated:zero-placeholder-strings")
                     relations(ctx, s, lang, ABS, parts_present=pp, kind="generated")
                     if ctx.tier == "thorough":
                         for pi in range(1, len(BASE_PAIRS)):
@@ -253,6 +273,12 @@ def run_misc(ctx):
         for pi in range(len(BASE_PAIRS)):
             relations(ctx, s, "en", NSP, kind="no-spaces", pair=pi, pref=PREFS[pi % 3])
         ctx.count("misc:nospaces")
+    for s in ["00/03/2012", "03/00/2012", "00.03.2012", "2012-00-15", "2012-05-00", "00 May 2015", "May 00, 2015", "0/0/2015",
+              "00-00-2015", "15/00", "00/2015"]:
+        for lang in ("en", "de", "fr"):
+            for pi in range(len(BASE_PAIRS)):
+                relations(ctx, s, lang, ABS, kind="zero-placeholder", pair=pi, pref=PREFS[pi % 3])
+        ctx.count("misc:zero-placeholder")
     # (iv) custom formats that lack parts: strictness must also apply when the caller supplies the format
     # by-construction 'part absent' only where no 1-2 digit token could be re-read as that part
     fm_cases = [("%B %Y", "May 2015", ["M", "Y"]), ("%m/%Y", "05/2015", None), ("%Y", "2015", ["Y"]),
